@@ -8,7 +8,10 @@ import (
 	"encoding/json"
 	"fmt"
 	"math/rand"
+	"os"
+	"path/filepath"
 	"strings"
+	"time"
 
 	"github.com/go-spring/log"
 
@@ -55,6 +58,27 @@ func (m segMap) name(syms []string) string {
 	return sb.String()
 }
 
+// anyLoggerType draws a logger plugin type for configurations that Refresh must reject: the tag rules hold for
+// every type, with or without appender references ("" = keep the plain synchronous logger).
+func anyLoggerType(rng *rand.Rand, app string) (string, []sys.Ref, map[string]string) {
+	dir := filepath.Join(os.Getenv("VERIF_SCRATCH"), "routing-files")
+	_ = os.MkdirAll(dir, 0o755)
+	log.RegisterTimeRotation("rth", log.TimeRotation{Interval: time.Hour})
+	switch rng.Intn(7) {
+	case 0:
+		return "AsyncLogger", []sys.Ref{{Ref: app}}, map[string]string{"bufferSize": "128"}
+	case 1:
+		return "Console", nil, nil
+	case 2:
+		return "Discard", nil, nil
+	case 3:
+		return "File", nil, map[string]string{"fileDir": dir, "fileName": "r.log"}
+	case 4:
+		return "RollingFile", nil, map[string]string{"fileDir": dir, "fileName": "rr.log", "rotation": "rth"}
+	}
+	return "", nil, nil
+}
+
 func cmdRouting(f hx.Flags, r *hx.Result) {
 	rng := hx.Rand(2)
 	repeats := f.Int("repeats", 3)
@@ -63,6 +87,10 @@ func cmdRouting(f hx.Flags, r *hx.Result) {
 		{"a": "a1", "b": "zz"},
 		{"a": "q", "b": "7"},
 		{"a": "aaaaaaaa", "b": "b"},
+		// one segment a string prefix of the other: "P_*" must match whole segments, not characters
+		{"a": "db", "b": "dbx"},
+		{"a": "v10", "b": "v1"},
+		{"a": "kk", "b": "k"},
 	}
 	console := sys.InstallConsole()
 	ctx := context.Background()
@@ -182,7 +210,12 @@ func runRouteCase(r *hx.Result, rng *rand.Rand, ctx context.Context, console *sy
 			tags = []string{"", " ", ",", " , ,", "\x00"}[rng.Intn(5)]
 			sig += "|empty"
 		}
-		cfg.AddLogger(names[i], "Logger", "", tags, []sys.Ref{{Ref: app}}, rng.Intn(2) == 0, nil)
+		if typ, refs, extra := anyLoggerType(rng, app); !c.OK && typ != "" {
+			// a configuration that must be rejected: whatever plugin type declares the logger
+			cfg.AddLogger(names[i], typ, "", tags, refs, false, extra)
+		} else {
+			cfg.AddLogger(names[i], "Logger", "", tags, []sys.Ref{{Ref: app}}, rng.Intn(2) == 0, nil)
+		}
 	}
 	switch c.Root {
 	case "plain":
@@ -190,7 +223,11 @@ func runRouteCase(r *hx.Result, rng *rand.Rand, ctx context.Context, console *sy
 		cfg.AddLogger("root", "Logger", "", "\x00", []sys.Ref{{Ref: "recroot"}}, false, nil)
 	case "withtags":
 		cfg.AddRec("recroot")
-		cfg.AddLogger("root", "Logger", "", m.name([]string{"a", "_", "b"}), []sys.Ref{{Ref: "recroot"}}, false, nil)
+		if typ, refs, extra := anyLoggerType(rng, "recroot"); typ != "" {
+			cfg.AddLogger("root", typ, "", m.name([]string{"a", "_", "b"}), refs, false, extra)
+		} else {
+			cfg.AddLogger("root", "Logger", "", m.name([]string{"a", "_", "b"}), []sys.Ref{{Ref: "recroot"}}, false, nil)
+		}
 	}
 	if len(cfg) == 0 || !hasAppender(cfg) {
 		// no logger and no root: Refresh requires an appender section; give it an unused appender
